@@ -395,6 +395,29 @@ def _g1(ctx: Context) -> None:
         _judge(ck, "C18.G1", ok, [vt], "the state number is advanced to the verified GSN of this notification",
                f"{ctx.fkey(f)}:stored-value", f"_async_notification: state_num is set to {show(vt, 120)}, not to the GSN that was compared with the nonce",
                ctx.loc(f, sn))
+    # a store made through _update_state_num(x) is a store of x only if the helper stores its parameter unchanged
+    # (a roll-over clamp there - `if state_num >= MAX_GSN: state_num = 1` - records 1 for the genuine GSN 65535 and
+    # re-opens the window for long superseded notifications)
+    if any(UPDATE_STATE in ctx.callee_names(f, c) for sn, _v in p.stores for c in ctx.calls(sn)):
+        uf = ctx.func(UPDATE_STATE)
+        ucfg = ctx.cfg(UPDATE_STATE)
+        par = ("param", uf.pos_params[1]) if len(uf.pos_params) >= 2 else None
+        n_st = 0
+        for un in ucfg.nodes:
+            a = un.ast
+            if un.kind != "stmt" or not isinstance(a, ast.Assign):
+                continue
+            for tg in a.targets:
+                if isinstance(tg, ast.Attribute) and tg.attr == "state_num":
+                    n_st += 1
+                    vt = strip_sites(T.of(ucfg, un, a.value))
+                    _judge(ck, "C18.G1", par is not None and vt == par, [vt], "_update_state_num stores exactly the number it is given",
+                           f"{ctx.fkey(uf)}:stores-parameter",
+                           f"_update_state_num records {show(vt, 100)} instead of the state number it is given: the broadcast path hands it the verified GSN, "
+                           "so the last accepted state number is not advanced to the notification's", ctx.loc(uf, un))
+        if n_st == 0:
+            ck.violated("C18.G1", f"{ctx.fkey(uf)}:no-store", "_update_state_num no longer writes description.state_num: an accepted notification does not advance the state number",
+                        uf.loc())
     # the update happens before the listeners are told
     store_out = []
     for sn, _v in p.stores:
